@@ -73,7 +73,7 @@ VH_GROUP(seeds)
         sv.name = s.name; sv.bytes = &s.bytes; sv.path = file.path;
         sv.expected = &s.expected; sv.expected_alt = &s.expected_alt; sv.exp_channels = s.channels; sv.exp_w = s.w; sv.exp_h = s.h;
         sv.file_bpp = s.prop("bpp");
-        sv.subrects = allrect || (s.w <= 5 && s.h <= 4);
+        sv.subrects = (allrect && s.w * s.h <= 20) || (s.w <= 5 && s.h <= 4);
         int comp = s.prop("compression");
         sv.scan_expected = !(comp == 1 || comp == 2);     // GIL documents: no scanline reader for run-length encoded BMP
         ++ctx.witness[std::string("bmp_bpp") + std::to_string(s.prop("bpp"))];
